@@ -174,6 +174,9 @@ func (e *Engine) keySort(t types.Type) string { return e.vc.keySort(t) }
 // keyTerm converts a Go value into its store-key term.
 func (e *Engine) keyTerm(st *State, v Val) string {
 	if isByteSlice(v.T) {
+		if strings.HasPrefix(v.S, "(slice_of_bv ") {
+			return strings.TrimSuffix(strings.TrimPrefix(v.S, "(slice_of_bv "), ")") // pure-term mode: content of a key component
+		}
 		return e.bvOf(st, v)
 	}
 	return v.S
@@ -611,7 +614,7 @@ func (e *Engine) specFunc(y *ECall, env *evalEnv) (Val, bool) {
 		_ = srt
 		cs := e.sdkCtxSort()
 		e.vc.declFun("unwrap_ctx", []string{"Iface"}, cs)
-		e.vc.declFun("ctx_time", []string{cs}, "Int")
+		e.declCtxTime(cs)
 		if kindOf(c.T) == kIface {
 			return Val{S: app("ctx_time", app("unwrap_ctx", c.S)), T: specInt}, true
 		}
@@ -692,6 +695,64 @@ func (e *Engine) specFunc(y *ECall, env *evalEnv) (Val, bool) {
 		if l, ok := y.Args[0].(*ELit); ok {
 			return Val{S: e.heap(env.logState(), "iterk_"+l.Val, "Int"), T: specInt}, true
 		}
+	case "iterkey":
+		// iterkey(N, j): last key component of the j-th element visited by callback iteration N (Walk)
+		if l, ok := y.Args[0].(*ELit); ok && env.fr != nil {
+			var n int
+			fmt.Sscanf(l.Val, "%d", &n)
+			if f := env.fr.iterKey[n]; f != nil {
+				return Val{S: f(arg(1).S), T: specInt}, true
+			}
+			return e.evalErr("iterkey: iteration " + l.Val + " is not a modelled Walk (or has not run yet)"), true
+		}
+	case "itlen":
+		e.declIter("Int")
+		return Val{S: app("itlen", e.iterID(arg(0))), T: specInt}, true
+	case "itpos":
+		e.declIter("Int")
+		return Val{S: e.iterPos(env.st, e.iterID(arg(0))), T: specInt}, true
+	case "itkey":
+		// itkey(it, j): j-th primary key of an index iterator
+		it := arg(0)
+		if ta := iterTypeArgs(it.T); ta != nil && ta.Len() == 2 {
+			ks := e.keySort(ta.At(1))
+			e.declIter(ks)
+			return Val{S: app("itkey_"+mangle(ks), e.iterID(it), arg(1).S), T: bvT, KeySort: ks}, true
+		}
+		return e.evalErr("itkey: not an index iterator"), true
+	case "k1", "k2", "k3":
+		// components of a store key (pair/triple)
+		kv := arg(0)
+		srt := kv.KeySort
+		if srt == "" && kv.T != nil {
+			if name, _ := pairArgs(kv.T); name != "" {
+				srt = e.vc.sortOf(kv.T)
+			}
+		}
+		if srt == "" {
+			return e.evalErr(y.Fn + ": not a composite store key"), true
+		}
+		i := int(y.Fn[1] - '1')
+		comp := app(fmt.Sprintf("%s_%d", srt, i), kv.S)
+		if cs := e.keyCompSort(srt, i); cs == "BV" {
+			return Val{S: comp, T: bvT}, true
+		}
+		return Val{S: comp, T: specInt}, true
+	case "strip0x":
+		// strip0x(s): s without a leading 0x / 0X (registry/types.Remove0xPrefix)
+		e.vc.declFun("strip0x", []string{"Str"}, "Str")
+		return Val{S: app("strip0x", arg(0).S), T: types.Typ[types.String]}, true
+	case "keccak":
+		// keccak(b): Keccak256 of a byte string (query id of query data)
+		e.vc.declFun("keccak1", []string{"BV"}, "BV")
+		return Val{S: app("keccak1", e.specKey(arg(0), env)), T: bvT}, true
+	case "bech32ok":
+		// bech32ok(s): s is a well-formed account address string (AccAddressFromBech32 succeeds)
+		e.declAddrStr()
+		return Val{S: app("bech32ok", arg(0).S), T: specBool}, true
+	case "unixms":
+		// unixms(t): time.Time.UnixMilli
+		return Val{S: app("div", arg(0).S, "1000000"), T: specInt}, true
 	case "iterstopped":
 		if l, ok := y.Args[0].(*ELit); ok {
 			return Val{S: e.heap(env.logState(), "iterstopped_"+l.Val, "Bool"), T: specBool}, true
@@ -777,4 +838,22 @@ func arg0addr(e *Engine, v Val, env *evalEnv) string {
 		return app("addr_acc", e.bvOf(env.logState(), v))
 	}
 	return app("addr_acc", e.bvOf(env.st, v))
+}
+
+// declCtxTime declares the block time of a Context with its type invariant (zero time or int64 nanoseconds).
+func (e *Engine) declCtxTime(cs string) {
+	e.vc.declFun("ctx_time", []string{cs}, "Int")
+	if !e.vc.declared["ctx_time_inv"] {
+		e.vc.declared["ctx_time_inv"] = true
+		e.vc.declSort(fmt.Sprintf("(assert (forall ((c %s)) (! (or (= (ctx_time c) %s) (and (<= (- 9223372036854775808) (ctx_time c)) (<= (ctx_time c) 9223372036854775807))) :pattern ((ctx_time c)))))", cs, timeZeroNs))
+	}
+}
+
+// keyCompSort: sort of component i of a composite key sort (from its name K<Pair|Triple>_<s1>_<s2>...).
+func (e *Engine) keyCompSort(srt string, i int) string {
+	parts := strings.Split(srt, "_")
+	if len(parts) >= i+2 {
+		return parts[i+1]
+	}
+	return "Int"
 }
